@@ -794,6 +794,9 @@ func (s *routingKernspaceSnapshot) BuildKernspace(log *logrus.Logger, bpf *bpfOb
 }
 
 func (b *RoutingMatcherBuilder) BuildUserspace() (matcher *RoutingMatcher, err error) {
+	if len(b.rules) > consts.MaxMatchSetLen {
+		return nil, fmt.Errorf("too many routing match sets: %v exceeds the limit %v; please simplify the routing rules", len(b.rules), consts.MaxMatchSetLen)
+	}
 	// Build domainMatcher first (it has its own parallelization)
 	domainMatcher := domain_matcher.NewAhocorasickSlimtrie(b.log, consts.MaxMatchSetLen)
 	for _, domains := range b.simulatedDomainSet {
